@@ -6,8 +6,12 @@ ID=sys.argv[1]
 src=f'/tmp/seeded-out/{ID}'; dst=f'/verif/seeded/{ID}'
 log=open(f'/tmp/seedcheck-{ID}.log').read()
 m=re.search(r'summary %s: demo without=(\d+) with=(\d+)'%ID,log)
-if not m: sys.exit('no summary in log')
-wo,wi=int(m.group(1)),int(m.group(2))
+if m:
+    wo,wi=int(m.group(1)),int(m.group(2))
+else:
+    ex=re.findall(r'^exit=(\d+)',log,re.M)
+    if len(ex)<2: sys.exit('no demo results in log')
+    wo,wi=int(ex[0]),int(ex[1])
 checks=[]
 for blk in re.split(r'== verif check ',log)[1:]:
     cid=blk.split()[0]
